@@ -520,7 +520,7 @@ impl TTS {
                 } else {
                     let amount = amount * TTS::get_pause_multiplier(prefs);
                     if amount > MIN_PAUSE {
-                        format!("<silence msec='{}'/>", (amount * 180.0/prefs.get_rate()).round())
+                        format!("<silence msec='{}'/>", (amount * 180.0/prefs.get_rate().max(1.0)).round())
                     } else {
                         "".to_string()
                     }
@@ -530,9 +530,9 @@ impl TTS {
             },
             // pitch must be in [-10, 10], logarithmic based on octaves
             // note MathPlayer uses 'absmiddle' (requires keeping a stack) -- could be 'middle' is not well supported
-            TTSCommand::Pitch => if is_start_tag {format!("<pitch middle=\"{}\">", (24.0*(1.0+command.value.get_num()/100.0).log2()).round())} else {String::from("</pitch>")},
+            TTSCommand::Pitch => if is_start_tag {format!("<pitch middle=\"{}\">", (24.0*(1.0+command.value.get_num()/100.0).max(0.0).log2()).round().clamp(-10.0, 10.0))} else {String::from("</pitch>")},
             // rate must be in [-10, 10], but we get relative %s. 300% => 10 (see comments at top of file)
-            TTSCommand::Rate =>  if is_start_tag {format!("<rate speed='{:.1}'>", 10.0*(0.01*command.value.get_num()).log(3.0))} else {String::from("</rate>")},
+            TTSCommand::Rate =>  if is_start_tag {format!("<rate speed='{:.1}'>", (10.0*(0.01*command.value.get_num()).max(0.0).log(3.0)).clamp(-10.0, 10.0))} else {String::from("</rate>")},
             TTSCommand::Volume =>if is_start_tag {format!("<volume level='{}'>", command.value.get_num())} else {String::from("</volume>")},
             TTSCommand::Audio => "".to_string(),    // SAPI5 doesn't support audio
             TTSCommand::Gender =>if is_start_tag {format!("<voice required=\"Gender={}\">", command.value.get_string())} else {String::from("</voice>")},
@@ -557,7 +557,7 @@ impl TTS {
                     } else {
                         let amount = amount * TTS::get_pause_multiplier(prefs);
                         if amount > MIN_PAUSE {
-                            format!("<break time='{}ms'/>", (amount * 180.0/prefs.get_rate()).round())
+                            format!("<break time='{}ms'/>", (amount * 180.0/prefs.get_rate().max(1.0)).round())
                         } else {
                             "".to_string()
                         }
